@@ -19,7 +19,7 @@ pub const CHECK: Check = Check {
     id: "C17",
     run,
     case_fn,
-    rule: "cases = (array of JS values: strings mixed with undefined/null/booleans/numbers; a sequence of setter calls, each returning a clone that is then either used for the next call or dropped in favour of the original). The wrapper is interpreted next to a model (flags OR, thresholds and escape last-wins, string elements only); build() on the last object and on the original must equal the library build of the string elements under the model settings. An empty or all-non-string array and zero thresholds must return Err(message) with the library's messages and never panic. Non-trivial = the array mixes strings and non-strings, or the sequence has at least 3 calls, or it is an error case. Distinct = hash of (array, call sequence).",
+    rule: "cases = (array of JS values: strings mixed with undefined/null/booleans/numbers; a sequence of calls on a POOL of live objects: every setter mutates the object it is called on and returns a clone that joins the pool; later calls (setters or intermediate build()s) may target any object). The wrapper is interpreted next to a model (flags OR, thresholds and escape last-wins, string elements only); at the end build() on EVERY live object (twice) must equal the library build of the string elements under that object's own model settings. An empty or all-non-string array and zero thresholds must return Err(message) with the library's messages and never panic. Non-trivial = the array mixes strings and non-strings, or the sequence has at least 3 calls, or it is an error case. Distinct = hash of (array, call sequence).",
     assumptions: &["only the Rust wrapper logic is decided; wasm-bindgen's generated glue, JS string conversion (lone surrogates) and trap behaviour are outside what this sandbox can run"],
 };
 
@@ -80,13 +80,30 @@ pub fn case_fn(_sub: &str, case: &Case, stats: &mut Stats) -> Result<(), String>
                 };
             }
         };
-        let mut model = Cfg::default();
-        let mut current: Option<WasmBuilder> = None;
+        // Object pool: every setter mutates the object it is called on AND returns a clone; JS code
+        // may go on with either. All objects stay alive; each has its own model settings. A call
+        // names the object it is made on ("on", mapped monotonically; default: the newest object).
+        let mut objs: Vec<(WasmBuilder, Cfg)> = vec![(original, Cfg::default())];
         for call in &calls {
-            let keep_clone = call.get("use_clone").and_then(|v| v.as_bool()).unwrap_or(true);
-            let target: &mut WasmBuilder = match current.as_mut() {
-                Some(c) => c,
-                None => &mut original,
+            let n = objs.len();
+            let ti = match call.get("on").and_then(|v| v.as_u64()) {
+                Some(o) => ((o as usize & 0xffff) * n) >> 16,
+                None => {
+                    // legacy form: use_clone=false means "keep calling the object used before"
+                    if call.get("use_clone").and_then(|v| v.as_bool()).unwrap_or(true) { n - 1 } else { n.saturating_sub(2).min(n - 1) }
+                }
+            };
+            if call.get("build").is_some() {
+                let got = objs[ti].0.build();
+                let want = build(&strings, &objs[ti].1).map_err(build_err)?;
+                if got != want {
+                    return Err(format!("an intermediate build() on object #{} returned {:?}; the library builds {:?} for {:?} with [{}]", ti, got, want, strings, objs[ti].1.tag()));
+                }
+                continue;
+            }
+            let (target, model) = {
+                let (a, b) = &mut objs[ti];
+                (a, b)
             };
             let returned: WasmBuilder = if let Some(i) = call.get("flag").and_then(|v| v.as_u64()) {
                 let i = i as usize % 15;
@@ -124,53 +141,60 @@ pub fn case_fn(_sub: &str, case: &Case, stats: &mut Stats) -> Result<(), String>
                     _ => *model.flag_mut(i) = true,
                 }
                 r
-            } else if let Some(n) = call.get("minrep").and_then(|v| v.as_u64()) {
-                match target.withMinimumRepetitions(n as u32) {
+            } else if let Some(nv) = call.get("minrep").and_then(|v| v.as_u64()) {
+                match target.withMinimumRepetitions(nv as u32) {
                     Ok(b) => {
-                        if n == 0 {
+                        if nv == 0 {
                             return Err("withMinimumRepetitions(0) succeeded".into());
                         }
-                        model.min_rep = n as u32;
+                        model.min_rep = nv as u32;
                         b
                     }
                     Err(e) => {
-                        if n == 0 && err_text(&e) == MSG_MINREP {
+                        if nv == 0 && err_text(&e) == MSG_MINREP {
                             continue;
                         }
-                        return Err(format!("withMinimumRepetitions({}) returned Err({:?})", n, e));
+                        return Err(format!("withMinimumRepetitions({}) returned Err({:?})", nv, e));
                     }
                 }
-            } else if let Some(n) = call.get("minlen").and_then(|v| v.as_u64()) {
-                match target.withMinimumSubstringLength(n as u32) {
+            } else if let Some(nv) = call.get("minlen").and_then(|v| v.as_u64()) {
+                match target.withMinimumSubstringLength(nv as u32) {
                     Ok(b) => {
-                        if n == 0 {
+                        if nv == 0 {
                             return Err("withMinimumSubstringLength(0) succeeded".into());
                         }
-                        model.min_len = n as u32;
+                        model.min_len = nv as u32;
                         b
                     }
                     Err(e) => {
-                        if n == 0 && err_text(&e) == MSG_MINLEN {
+                        if nv == 0 && err_text(&e) == MSG_MINLEN {
                             continue;
                         }
-                        return Err(format!("withMinimumSubstringLength({}) returned Err({:?})", n, e));
+                        return Err(format!("withMinimumSubstringLength({}) returned Err({:?})", nv, e));
                     }
                 }
             } else {
                 continue;
             };
-            // JS: `b = b.withX()` (use the returned clone) or `b.withX()` (drop it, keep the object)
-            if keep_clone {
-                current = Some(returned);
+            let m = objs[ti].1.clone();
+            if objs.len() < 10 {
+                objs.push((returned, m));
+            } else {
+                let last = objs.len() - 1;
+                objs[last] = (returned, m);
             }
         }
-        let want = build(&strings, &model).map_err(build_err)?;
-        let last = match current.as_mut() {
-            Some(c) => c.build(),
-            None => original.build(),
-        };
-        if last != want {
-            return Err(format!("the wrapper built {:?}; the library builds {:?} for {:?} with [{}]", last, want, strings, model.tag()));
+        // every object that is still alive must build what the library builds for ITS settings
+        for (k, (obj, model)) in objs.iter_mut().enumerate() {
+            let want = build(&strings, model).map_err(build_err)?;
+            let got = obj.build();
+            if got != want {
+                return Err(format!("object #{} of {} built {:?}; the library builds {:?} for {:?} with [{}]", k, calls.len(), got, want, strings, model.tag()));
+            }
+            let again = obj.build();
+            if again != want {
+                return Err(format!("object #{}: a second build() returned {:?} after {:?}", k, again, got));
+            }
         }
         Ok(())
     });
@@ -181,10 +205,13 @@ pub fn case_fn(_sub: &str, case: &Case, stats: &mut Stats) -> Result<(), String>
 }
 
 fn calls_strategy() -> BoxedStrategy<Value> {
+    // "on": which live object the call is made on (0xffff = newest, i.e. plain chaining)
+    let on = || prop_oneof![3 => Just(0xffffu64), 2 => 0u64..0x10000];
     let call = prop_oneof![
-        8 => (0u64..15, proptest::bool::weighted(0.7)).prop_map(|(i, u)| json!({"flag": i, "use_clone": u})),
-        1 => (0u64..5, any::<bool>()).prop_map(|(n, u)| json!({"minrep": n, "use_clone": u})),
-        1 => (0u64..5, any::<bool>()).prop_map(|(n, u)| json!({"minlen": n, "use_clone": u})),
+        8 => (0u64..15, on()).prop_map(|(i, o)| json!({"flag": i, "on": o})),
+        1 => (0u64..5, on()).prop_map(|(n, o)| json!({"minrep": n, "on": o})),
+        1 => (0u64..5, on()).prop_map(|(n, o)| json!({"minlen": n, "on": o})),
+        2 => on().prop_map(|o| json!({"build": true, "on": o})),
     ];
     vec(call, 0..10).prop_map(Value::Array).boxed()
 }
